@@ -226,3 +226,5 @@ wire_payload!(IntP, u64, |x| x, |x| *x);
 wire_payload!(OptP, Option<u64>, |x| Some(x), |x| x.unwrap_or(u64::MAX));
 wire_payload!(StrP, String, |x| x.to_string(), |x| x.parse().unwrap_or(u64::MAX));
 wire_payload!(UnitLikeP, (u64, ()), |x| (x, ()), |x| x.0);
+wire_payload!(U128P, u128, |x| x as u128, |x| *x as u64);
+wire_payload!(MapP, std::collections::BTreeMap<u32, u64>, |x| std::iter::once(((x & 7) as u32, x)).collect(), |x| x.values().next().copied().unwrap_or(u64::MAX));
